@@ -80,3 +80,8 @@ pub fn io_print_noop(_args: std::fmt::Arguments<'_>) {}
 pub fn fmt_write_noop(_out: &mut dyn std::fmt::Write, _args: std::fmt::Arguments<'_>) -> std::fmt::Result {
     Ok(())
 }
+
+/// `std::env::var` -> not present (RandomScheduler::new_execution consults SHUTTLE_ALWAYS_PERSIST_SEED).
+pub fn env_var_unset<K: AsRef<std::ffi::OsStr>>(_key: K) -> Result<String, std::env::VarError> {
+    Err(std::env::VarError::NotPresent)
+}
